@@ -7,16 +7,26 @@ This module ties the model to py7zr and explores py7zr with the model and the se
   subclass that knows which folder it serves; every output object (WriterFactory product, or the file
   returned by pathlib.Path.open under the scratch destination) blocks its worker before each create/write
   until the scheduler gives that worker the turn.  One turn = from one output operation of a worker up to
-  its next one (or its end), so a chosen interleaving at output-write granularity is enforced exactly;
+  its next one (or its end), so a chosen interleaving at output-write granularity is enforced exactly
+  (all interleavings when there are at most `budget`, else sequential / reversed / round robin / random);
 * reference traces: each folder's sequence of output operations, taken from a sequential extraction
   (archive opened from BytesIO) -- the model's claim is that a worker's actions depend on its own folder
   only, so under every interleaving every worker must show exactly its reference trace, and the outputs
-  and the result must be what the model computes for that interleaving;
-* damage at every folder position (copy chain: CRC mismatch; lzma2: decoder failure or CRC), on the
-  thread path under many interleavings, on the process path (mp=True, in a sandbox subprocess) and on the
-  sequential path;
-* two SevenZipFile objects extracting the same archive file at once, workers of both interleaved;
-* an audit hook on `open`: every worker opens the archive itself, by name.
+  and the result must be what the model (FN 240 par_extract) computes for that very interleaving;
+* damage at every folder position: one flipped bit in the folder's packed stream (copy chain: CRC mismatch;
+  lzma2/bzip2/deflate/zstd: decoder failure or CRC), or an output that cannot be written (a failing factory /
+  a directory in the way) -- on the thread path under many interleavings, on the process path (mp=True, in a
+  sandbox subprocess, free running) and on the sequential path; the caller must get the exception the
+  sequential path raises, the outputs must be the sequential ones up to the damaged folder and complete after;
+* two SevenZipFile objects extracting the same archive file at once, workers of both interleaved (FN 245);
+* an audit hook on `open`: every worker opens the archive itself, exactly once, by name;
+* which path runs (threads / caller) against select_mode (FN 243); output names against outnames (FN 244);
+* the colliding-names archive (a_0 | a | a) and the two-damaged-folders archive of the _refuted theorems,
+  replayed on py7zr under the schedules of the Coq witnesses.
+
+Process runs are compared with two models: the code as it stands (mode 2: exception queue and factory products
+stay in the children -- the known findings) and the code after the proposed repair (mode 3 = threads); a tree
+that behaves as mode 3 is simply accepted, so the check stays valid if the defect is repaired.
 """
 import io
 import itertools
@@ -1174,6 +1184,10 @@ def plan(rng, tier):
         {"folders": [{"chain": "lzma2", "members": [["a.bin", gen_data(rng, 20).hex()], ["a2.bin", gen_data(rng, 7).hex()]]},
                      {"chain": "copy", "members": [["b.bin", gen_data(rng, 4).hex()], ["b2.bin", gen_data(rng, 11).hex()]]}],
          "limit": 16},
+        {"folders": [{"chain": "copy", "members": [["a.bin", gen_data(rng, 6).hex()], ["a2.bin", gen_data(rng, 13).hex()],
+                                                    ["a3.bin", gen_data(rng, 2).hex()]]},
+                     {"chain": "lzma2", "members": [["b.bin", gen_data(rng, 20).hex()], ["b2.bin", gen_data(rng, 1).hex()],
+                                                     ["b3.bin", gen_data(rng, 9).hex()]]}], "limit": 64},
     ]
     for i, c in enumerate(small):
         jobs.append((c, 1000 if quick else 20000, 1 if i == 0 else 0, 4 if i == 0 else 0))
@@ -1292,12 +1306,16 @@ def replay(d):
                     for i in lay["folders"][f]:
                         want[outn[i]] = pref["outs"][outn[i]]
             got = extract_controlled(path, lay, case["limit"], r["order"], target, wd, two=(kind == "two"),
-                                     unwritable=unwritable_of(case))
+                                     unwritable=unwritable_of(case), audit=True)
+            bad_audit = check_audit(got, nf, lay)
             print("sequential path:", ref["result"], hexouts(ref["outs"]))
             print("expected of the parallel path:", ref["result"][:2], hexouts(want))
             results = got["result"] if kind == "two" else [got["result"]]
             outs = got["outs"] if kind == "two" else [got["outs"]]
             bad = False
+            if bad_audit:
+                print(bad_audit)
+                bad = True
             for i in range(len(results)):
                 print("object %d, order %r:" % (i, r["order"]), results[i], hexouts(outs[i]), got["run"].problems)
                 if results[i][:2] != ref["result"][:2] or outs[i] != want:
@@ -1352,6 +1370,18 @@ def replay(d):
             if case.get("damage"):
                 return 1 if (res[0] == "ok" or res[1] != ref["result"][1]) else 0
             return 1 if (res != ["ok"] or outs != ref["outs"]) else 0
+        if kind == "modes":
+            rec = Rec()
+            model = vlib.Model()
+            try:
+                explore_modes(model, rec, wd)
+            finally:
+                model.close()
+            bad = [e for e in rec.events if e[0] == "violation"]
+            for e in rec.events:
+                if e[0] in ("violation", "dist"):
+                    print(e[1:3])
+            return 1 if bad else 0
         print("no replay for kind", kind, "-- case:", str(r)[:1500])
         return 2
     finally:
